@@ -90,7 +90,7 @@ func Model(w *Workload) *Expect {
 			defsSeen[p.to][p.ver+"|"+p.app] = true
 			lines[p.to]++
 			if e.Dist[p.to] >= 0 {
-				if normVer(e.ClaimVer[p.to]) != normVer(p.ver) || claimedApp[p.to] != appOf(p.app) {
+				if !w.NoVerCheck && (normVer(e.ClaimVer[p.to]) != normVer(p.ver) || claimedApp[p.to] != appOf(p.app)) {
 					e.Conflict = true
 				}
 				continue
